@@ -163,7 +163,7 @@ class FunctionVerifier:
             self.path_notes = []
             self._nonneg, self._nonneg_keep = set(), []
             self._soft_ids, self.soft_mode = set(), False
-            self._branch_ids = set()
+            self._branch_ids, self._proved_ids = set(), set()
             self._fresh_ids, self._entry_ids, self._id_keep = set(), set(), []
             self._owner_tag, self._entry_term_cache, self._binder_cache, self._lkind_tag = {}, {}, {}, {}
             self._revealed = {}
@@ -219,9 +219,11 @@ class FunctionVerifier:
     def add_cover(self):
         if any(z3.is_false(c) for c in self.pc):
             return      # the path ended in a "must be infeasible" obligation (unexpected exception): no cover
-        hard = [c for c in self.pc if c.get_id() not in self._soft_ids]
-        nobranch = [c for c in self.pc if c.get_id() not in self._branch_ids]
-        self.covers.append((f"{self.label}#cover@p{self.paths}", list(self.pc), hard, nobranch))
+        # goals of this function's own obligations are not assumptions: leave them out of the vacuity check
+        base = [c for c in self.pc if c.get_id() not in self._proved_ids]
+        hard = [c for c in base if c.get_id() not in self._soft_ids]
+        nobranch = [c for c in base if c.get_id() not in self._branch_ids]
+        self.covers.append((f"{self.label}#cover@p{self.paths}", base, hard, nobranch))
 
     def feasible_full(self, cond, timeout=5000):
         s = z3.Solver()
@@ -343,6 +345,7 @@ class FunctionVerifier:
             self.obligations.append(ob)
         if not trivial:
             self._soft_ids.add(goal.get_id())
+            self._proved_ids.add(goal.get_id())
             self._id_keep.append(goal)
             self.pc.append(goal)
 
@@ -409,7 +412,7 @@ class FunctionVerifier:
         self.ctr = itertools.count()
         self._nonneg, self._nonneg_keep = set(), []
         self._soft_ids, self.soft_mode = set(), False
-        self._branch_ids = set()
+        self._branch_ids, self._proved_ids = set(), set()
         self._fresh_ids, self._entry_ids, self._id_keep = set(), set(), []
         self._owner_tag, self._entry_term_cache, self._binder_cache, self._lkind_tag = {}, {}, {}, {}
         self._revealed = {}
@@ -1090,7 +1093,7 @@ class FunctionVerifier:
             if z3.is_app(x):
                 if x.num_args() == 0 and x.decl().kind() == z3.Z3_OP_UNINTERPRETED:
                     n = x.decl().name()
-                    if not (n.endswith("@0") or n.startswith("p_") and n.endswith("!0") or n == "null" or
+                    if not (n.endswith("@0") or n.startswith("p_") and n.endswith("!0") or n in ("null", "WORLD") or
                             n.startswith("classattr:") or n.startswith("default:")):
                         ok = False
                 todo.extend(x.children())
@@ -1124,6 +1127,11 @@ class FunctionVerifier:
             v = self._revealed.get((key, r.get_id()))
             if v is not None and v[0] == arr.get_id():
                 return v[1]
+        nh = self._newer_havoc.get(arr.get_id())
+        if nh is not None and self.older_than(r, nh[1]):
+            return self.sel(nh[0], r, key)
+        if z3.is_app(arr) and arr.decl().kind() == z3.Z3_OP_ITE:
+            return self.sel(arr, r, key)
         return z3.Select(arr, r)
 
     def older_than(self, r, bound):
